@@ -4,9 +4,8 @@ VIEW View
 CONSTANTS
   BufferSize = 6
   U16Max = 40
-  Configs <- SchedOK
+  Configs <- GrowOK
 INVARIANT RoundWellFormed
-INVARIANT StablePathLength
-INVARIANT NothingAnswered
 INVARIANT TargetDistanceReported
 INVARIANT EstablishedBeyondRouters
+INVARIANT NothingAnswered
